@@ -137,7 +137,7 @@ func Load(dir string, overlay map[string][]byte) (*Prog, error) {
 	if nerr > 0 {
 		return nil, fmt.Errorf("%d load/type errors, first: %s", nerr, firstErr)
 	}
-	// helper normalisation (see normalize.go): up to three rounds for nested helpers
+	// helper normalisation (see normalize.go): up to four rounds (nested helpers; tail recursion turned into a loop, then inlined)
 	if !NoNormalize {
 		cur := overlay
 		// rename normalisation (see rename.go): types first, then everything owned by them
@@ -175,7 +175,7 @@ func Load(dir string, overlay map[string][]byte) (*Prog, error) {
 		for k, v := range cur {
 			nz.overlay[k] = v
 		}
-		for round := 1; round <= 3; round++ {
+		for round := 1; round <= 4; round++ {
 			nz.round = round
 			nz.fset = pkgs[0].Fset
 			before := len(nz.sites)
